@@ -15,6 +15,48 @@ from dvc_objects.fs.memory import MemoryFileSystem
 from .seam import REAL
 
 
+class SimReader:
+    """A binary stream that serves its content in PRNG-chosen SHORT reads
+    (like a socket / pipe / http body)."""
+
+    def __init__(self, data, rng, short=True):
+        self.data, self.pos, self.rng, self.short = data, 0, rng, short
+        self.reads = 0
+        self.short_reads = 0
+        self.closed = False
+
+    def read(self, n=-1):
+        left = len(self.data) - self.pos
+        if n is None or n < 0:
+            n = left
+        want = min(n, left)
+        if self.short and want > 1 and self.rng.random() < 0.5:
+            k = self.rng.randint(1, want)
+            if k < want:
+                self.short_reads += 1
+            want = k
+        out = self.data[self.pos : self.pos + want]
+        self.pos += want
+        self.reads += 1
+        return out
+
+    def readable(self):
+        return True
+
+    def tell(self):
+        return self.pos
+
+    def close(self):
+        self.closed = True
+
+    def __enter__(self):
+        return self
+
+    def __exit__(self, *a):
+        self.close()
+        return False
+
+
 class SimRemoteFS(MemoryFileSystem):
     protocol = "simremote"
     PARAM_CHECKSUM = "md5"
@@ -24,6 +66,8 @@ class SimRemoteFS(MemoryFileSystem):
         self.sim_name = name
         self.seam = seam
         self.stats = {"put": 0, "get": 0}
+        self.read_rng = None
+        self.short_read_rng = None
         # optional durable backing directory (outside the world, written with
         # the real os functions, atomically): lets the remote survive the
         # death of the process that talks to it (E8)
@@ -76,7 +120,18 @@ class SimRemoteFS(MemoryFileSystem):
 
     def put_file(self, from_file, to_info, callback=None, size=None, **kwargs):
         if hasattr(from_file, "read"):
-            data = from_file.read()
+            if self.read_rng is not None:
+                # consume the stream in PRNG-chosen block sizes (E12)
+                parts = []
+                while True:
+                    n = self.read_rng.choice([1, 7, 511, 512, 513, 4096, 65536, 2**20, -1])
+                    b = from_file.read(n)
+                    if not b:
+                        break
+                    parts.append(b)
+                data = b"".join(parts)
+            else:
+                data = from_file.read()
         else:
             with REAL["open"](os.fspath(from_file), "rb") as f:
                 data = f.read()
@@ -119,6 +174,8 @@ class SimRemoteFS(MemoryFileSystem):
     def open(self, path, mode="r", **kwargs):
         if "r" in mode:
             self._pt("r_query", path)
+            if self.short_read_rng is not None and "b" in mode:
+                return SimReader(self.fs.cat_file(path), self.short_read_rng)
         return self.fs.open(path, mode=mode, **kwargs)
 
     def exists(self, path, callback=None, batch_size=None):
